@@ -28,6 +28,8 @@ type shadow struct {
 	ctx  string // network family / scenario, for witnesses
 	// resync: the shadow could not follow the last update (reported); copy the chain's store
 	resync bool
+	// lastJSON is the JSON form of the update being judged (for witnesses)
+	lastJSON string
 	// divergences seen (for the caller's minimal-witness search)
 	diverged int
 }
@@ -134,7 +136,8 @@ func (s *shadow) compareDiffs(kind string, w updWitness, pairs ...any) {
 // OnApply is called with the original update BEFORE the chain's store sees it.
 func (s *shadow) OnApply(ev chaingen.ApplyEvent) {
 	w := updWitness{Context: s.ctx, Update: "ApplyUpdate", Height: ev.Next.Index.Height, OldLeaves: ev.Prev.Elements.NumLeaves, NewLeaves: ev.Next.Elements.NumLeaves, Kinds: ev.Kinds}
-	au2, _, ok := s.roundtripApply(ev.AU, w)
+	au2, js, ok := s.roundtripApply(ev.AU, w)
+	s.lastJSON = string(js)
 	if !ok {
 		s.resync = true
 		return
@@ -159,7 +162,8 @@ func (s *shadow) AfterApply(ev chaingen.ApplyEvent) {
 
 func (s *shadow) OnRevert(ev chaingen.RevertEvent) {
 	w := updWitness{Context: s.ctx, Update: "RevertUpdate", Height: ev.Reverted.Index.Height, OldLeaves: ev.Reverted.Elements.NumLeaves, NewLeaves: ev.Prev.Elements.NumLeaves}
-	ru2, _, ok := s.roundtripRevert(ev.RU, w)
+	ru2, js, ok := s.roundtripRevert(ev.RU, w)
+	s.lastJSON = string(js)
 	if !ok {
 		s.resync = true
 		return
@@ -244,6 +248,7 @@ func (s *shadow) compare(kind string, cs consensus.State, w updWitness) {
 	bad := false
 	viol := func(class, detail string, w updWitness) {
 		bad = true
+		w.JSON = capStr(s.lastJSON, 5000)
 		b.Violate(fmt.Sprintf("C20/update-roundtrip/%s/%s", kind, class), detail, w)
 	}
 	for k := range sh {
@@ -381,8 +386,8 @@ func (s *shadow) attach() {
 
 // runHistories: chaingen histories over the network families with reorgs.
 func runHistories(b *harness.B, idx int) {
-	nNets := b.Pick(2, 8)
-	blocks := b.Pick(110, 400)
+	nNets := b.Pick(3, 10)
+	blocks := b.Pick(180, 500)
 	for i := 0; i < nNets; i++ {
 		fam := chaingen.Families[(idx+i)%len(chaingen.Families)]
 		rng := b.SubRng(fmt.Sprint("net", i))
